@@ -612,6 +612,12 @@ func (fx *fctx) execLoop(st *State, s ast.Stmt, cond func(*State) *Term, body fu
 	if hiddenIdx != nil {
 		h.vars[hiddenIdx] = e.havocValue(h, hiddenIdx.Type(), "rangeidx")
 	}
+	// ghost variables assigned by hooks located inside the loop
+	for _, name := range fx.ghostAssignedIn(s) {
+		if gv := fx.ghostVar[name]; gv != nil {
+			h.vars[gv] = e.havocValue(h, gv.Type(), "ghost."+name)
+		}
+	}
 	if top {
 		e.havocAll(h)
 	} else if len(keys) > 0 {
@@ -631,6 +637,9 @@ func (fx *fctx) execLoop(st *State, s ast.Stmt, cond func(*State) *Term, body fu
 		}
 	}
 	fx.boundaryAssume(h, s)
+	if c := fx.assert(h, "vacuity", tag+"-head", ts.False(), s, nil, "canary: loop head is reachable under its invariant (must be refutable)"); c != nil {
+		c.Canary = true
+	}
 	// 3. condition
 	head := h.clone()
 	var dec0 *Term
@@ -672,7 +681,11 @@ func (fx *fctx) execLoop(st *State, s ast.Stmt, cond func(*State) *Term, body fu
 	}
 	// 5. exit
 	exits := append([]*State{exitSt}, jf.breaks...)
-	return e.merge(exits)
+	out := e.merge(exits)
+	if !out.dead {
+		fx.runHooks(out, "loopexit", ord, "", s, nil)
+	}
+	return out
 }
 
 func (fx *fctx) execFor(st *State, s *ast.ForStmt) *State {
